@@ -44,6 +44,10 @@ pub fn general_scope(tier: &str) -> TreeScope {
       small.push(t.clone());
     }
   }
+  let nv = trees::named_variants();
+  small.push(nv[1].clone());
+  small.push(nv[4].clone());
+  small.push(nv[6].clone());
   TreeScope {
     leaves,
     small_leaves: small,
@@ -197,6 +201,15 @@ pub fn tree_worker(prop: &str, tier: &str, k: usize, n: usize, ctx: &mut Ctx) {
     "C01" => {
       sweep(ctx, &general_scope(tier), k, n, &all, &mut |c, t| tc::c01(c, t));
       sweep(ctx, &wild_scope(tier), k, n, &all, &mut |c, t| tc::c01(c, t));
+      let mut st = Striper::new(k, n);
+      for_each_wild_map_leaf(tier, &mut st, &mut |t| {
+        for w in wild_contexts(t) {
+          crate::set_current_case(&w);
+          ctx.states += 1;
+          tc::c01(ctx, &w);
+        }
+      });
+      crate::clear_current_case();
     }
     "C02" => sweep(ctx, &general_scope(tier), k, n, &all, &mut |c, t| tc::c02(c, t)),
     "C03" => sweep(ctx, &general_scope(tier), k, n, &all, &mut |c, t| tc::c03(c, t)),
@@ -257,6 +270,7 @@ pub fn c13_pool(tier: &str) -> Vec<Term> {
   pool.push(Term::boxed(Term::concat(vec![o("a\nb"), o("a")])));
   pool.push(Term::RawBuf(b"a\n".to_vec()));
   pool.push(Term::RawStr("b".into()));
+  pool.extend(trees::named_variants().into_iter().step_by(2));
   if tier == "thorough" {
     let extra = trees::sms_leaves(&["ab\n", "a\nb"], 2, &[None, Some(K_A), Some(K_B)]);
     pool.extend(extra.into_iter().step_by(3).take(24));
@@ -382,8 +396,10 @@ pub fn c06_pool(tier: &str) -> (Vec<Term>, Vec<Term>) {
     s2.map.root = Some("r".into());
     pool.push(Term::Sms(Box::new(s2)));
   }
+  let named = trees::named_variants();
+  pool.extend(named.iter().cloned());
   // reduced pool for triples / nesting / composite inners
-  let mut small: Vec<Term> = Vec::new();
+  let mut small: Vec<Term> = named;
   for (i, t) in pool.iter().enumerate() {
     if i < 9 || i % 9 == 0 {
       small.push(t.clone());
@@ -531,7 +547,80 @@ pub fn for_each_wild_combined(st: &mut Striper, visit: &mut dyn FnMut(&Term)) {
   }
 }
 
+/// SourceMapSource leaves whose (sorted) segments are placed on a grid that extends beyond the
+/// text: every line up to two past the last, columns {0, 1, beyond the line}; original locations
+/// inside and outside the tables; plus raw mappings whose running values go negative (they decode
+/// by wrapping to huge indices).
+pub fn for_each_wild_map_leaf(tier: &str, st: &mut Striper, visit: &mut dyn FnMut(&Term)) {
+  use crate::term::O4;
+  let kinds: Vec<Option<O4>> = vec![None, Some(K_A), Some((5, 9, 9, Some(7))), Some((0, 0, 0, None)), Some(K_B)];
+  let max = if tier == "thorough" { 3 } else { 2 };
+  for text in ["", "a", "a\n", "\n", "ab\ncd", "é\n"] {
+    let nlines = text.matches('\n').count() as u32 + 1;
+    let mut grid: Vec<(u32, u32)> = Vec::new();
+    for l in 1..=nlines + 2 {
+      for c in [0u32, 1, 4] {
+        grid.push((l, c));
+      }
+    }
+    for segs in trees::seg_lists(&grid, &kinds, max.min(if text.len() > 3 { 2 } else { 3 })) {
+      if !st.mine() {
+        continue;
+      }
+      let t = Term::Sms(Box::new(SmsSpec {
+        value: text.to_string(),
+        name: "wild.js".into(),
+        map: trees::map_spec(segs, true),
+        original_source: None,
+        inner: None,
+        remove: false,
+      }));
+      visit(&t);
+    }
+  }
+  for raw in ["AAFA;AAAA", "DAAA", "ADAA", "AAAD", "AAAAD", "AADA,CADA", "AAAA;AAFA;AACA", "C;D", "AAAA,DAAA"] {
+    for text in ["a\nb\n", "ab"] {
+      if !st.mine() {
+        continue;
+      }
+      let mut m = MapSpec::new(vec![], &["s0"], Some(&["ab\ncd"]), &["n0"]);
+      m.raw_mappings = Some(raw.to_string());
+      visit(&Term::sms(text, "rawneg.js", m));
+    }
+  }
+}
+
+/// a wild leaf alone and in the three contexts that consume its stream differently
+pub fn wild_contexts(t: &Term) -> [Term; 4] {
+  [
+    t.clone(),
+    {
+      // replacement positions stay on char boundaries
+      let text = crate::model::model_text(t);
+      let end = text.chars().next().map(|c| c.len_utf8()).unwrap_or(1) as u32;
+      Term::replace(t.clone(), vec![crate::term::Repl::new(0, end, "X").named("n")])
+    },
+    Term::cached(t.clone()),
+    Term::concat(vec![Term::orig("q\n", "q.js"), t.clone(), Term::raw("z")]),
+  ]
+}
+
 pub fn c17_tree_worker(tier: &str, k: usize, n: usize, ctx: &mut Ctx) {
+  {
+    let mut st = Striper::new(k, n);
+    for_each_wild_map_leaf(tier, &mut st, &mut |t| {
+      for w in wild_contexts(t) {
+        crate::set_current_case(&w);
+        ctx.begin_case(|| serde_json::to_string(&w).unwrap());
+        ctx.states += 1;
+        tc::all_methods_return(ctx, &w);
+        if matches!(w, Term::Cached(_)) {
+          tc::cached_replay_twice(ctx, &w);
+        }
+      }
+    });
+    crate::clear_current_case();
+  }
   let all = |_: &Term| true;
   sweep(ctx, &wild_scope(tier), k, n, &all, &mut |c, t| tc::all_methods_return(c, t));
   let mut st = Striper::new(k, n);
